@@ -305,3 +305,59 @@ class Result:
             cov["distinct_nontrivial"], cov["exhaustive"], nviol, ev["wall_s"]))
         sys.stdout.flush()
         return 1 if nviol else 0
+
+
+# ---------------------------------------------------------------------------------------------
+# VK engine helpers
+
+VKB = os.path.join(BUILDROOT, "vk")
+
+
+def vk_build():
+    sh("make -s -C %s -j16" % os.path.join(VERIF, "vk"))
+    return VKB
+
+
+def vk_cmd(scn, src, outdir, bounds, total, deadline, family, opts=(), workers=16, extra=""):
+    return ("%s/scn_%s --src %s --preload %s/libvk.so --standin %s/standin --out %s --workers %d --bounds %s --total %d "
+            "--deadline %d --family %s %s %s" % (VKB, scn, src, VKB, VKB, outdir, workers, bounds, total, deadline, family,
+                                                " ".join("-D" + o for o in opts), extra))
+
+
+def vk_run(res, scn, src, rd, bounds, total, deadline, family, opts=(), workers=16):
+    """Run one VK exploration; merges its STAT/SAMPLE/FAIL lines; copies a replay file to /verif/replays."""
+    outdir = os.path.join(rd, "vkout")
+    os.makedirs(outdir, exist_ok=True)
+    cmd = vk_cmd(scn, src, outdir, bounds, total, deadline, family, opts, workers)
+    p = sh(cmd, check=False, timeout=deadline + 300)
+    out = p.stdout or ""
+    if p.returncode not in (0, 1):
+        sys.stderr.write("HARNESS-ERROR: %s exited %d\n%s\n" % (cmd, p.returncode, out[-3000:]))
+        sys.exit(2)
+    # attach the replay file contents to FAIL lines
+    m = re.search(r"\(replay: ([^)]+)\)", out)
+    body = ""
+    if m and os.path.exists(m.group(1)):
+        body = open(m.group(1), errors="replace").read()
+    before = len(res.fails)
+    res.parse_harness_output(out, family)
+    for i in range(before, len(res.fails)):
+        k, t, b = res.fails[i]
+        res.fails[i] = (k, t, "vk-scenario=%s\nvk-bounds=%s total=%d\n%s" % (scn, bounds, total, body))
+    return out
+
+
+def vk_replay(prop, path):
+    """bin/check <ID> --replay <file>: rebuild and re-run the recorded choice vector with tracing."""
+    txt = open(path, errors="replace").read()
+    m = re.search(r"^vk-scenario=(\S+)", txt, re.M)
+    if not m:
+        print("not a VK replay file; re-run the check itself: bin/check %s --tier quick" % prop)
+        return 2
+    rd = rundir(prop + "-replay")
+    vk_build()
+    src = scratch_build(rd, "plain")
+    outdir = os.path.join(rd, "vkout"); os.makedirs(outdir)
+    cmd = "%s/scn_%s --src %s --preload %s/libvk.so --standin %s/standin --out %s --replay %s" % (VKB, m.group(1), src, VKB, VKB, outdir, path)
+    p = sh(cmd, check=False, capture=False)
+    return p.returncode
